@@ -24,13 +24,34 @@ Theorem fill_up_spec : forall ds nodata data sq, length data = size ds -> topo d
 Proof. exact FillSpec.fill_up_spec. Qed.
 Print Assumptions fill_up_spec.
 
-(* direction 'down' *)
+(* direction 'down'.  Every cell carries (value, holds-a-value) -- fill_pairs; the result is the value component.
+   A cell holding a value keeps it; an empty cell gets the merge of the values of exactly those direct upstream cells
+   that end up holding a value (in closed form: their min / max / sum), and stays empty iff none does.  Whether a
+   merged value happens to equal the nodata value plays no role (repaired defect). *)
+Theorem fill_down_pairs : forall ds sq data nodata how, topo ds sq -> length data = size ds ->
+  forall j, (j < size ds)%nat ->
+  let prs := fill_pairs ds sq data nodata how in
+  nth j prs (0, false) =
+    if nth j data 0 =? nodata
+    then merge_fold how (map (fun c => nth c prs (0, false)) (kids ds (rev sq) j)) (nodata, false)
+    else (nth j data 0, true).
+Proof. exact OpsSpec.fill_down_pairs. Qed.
+Print Assumptions fill_down_pairs.
+
+Theorem merge_fold_closed : forall how vals x, merge_fold how vals (x, false) =
+  match filter snd vals with
+  | [] => (x, false)
+  | v :: vs => (fold_left (fun a w => merge how (fst w) a) vs (fst v), true)
+  end.
+Proof. exact OpsSpec.merge_fold_closed. Qed.
+Print Assumptions merge_fold_closed.
+
 Theorem fill_down_spec : forall ds sq data nodata how, topo ds sq -> length data = size ds ->
   forall j, (j < size ds)%nat ->
-  let out := fillnodata_downstream ds sq data nodata how in
-  nth j out 0 = if nth j data 0 =? nodata
-                then merge_fold nodata how (map (fun c => nth c out 0) (kids ds (rev sq) j)) nodata
-                else nth j data 0.
+  nth j (fillnodata_downstream ds sq data nodata how) 0 =
+  if nth j data 0 =? nodata
+  then fst (merge_fold how (map (fun c => nth c (fill_pairs ds sq data nodata how) (0, false)) (kids ds (rev sq) j)) (nodata, false))
+  else nth j data 0.
 Proof. exact OpsSpec.fill_down_spec. Qed.
 Print Assumptions fill_down_spec.
 
